@@ -15,9 +15,14 @@
                (LexParser::new_with_lex_flags);
    - [re_bad]  the offsets of rule lines whose regular expression the regex
                crate refuses to compile (Rule::new is opaque here);
-   - [fx]      which of the five proposed repairs are applied (record [fixes];
-               all false = the code as it was first read, [pinned] = the code as
-               it is now, [repaired] = all of them). *)
+   - [fx]      which of the eight repairs are applied (record [fixes];
+               all false = the code as it was first read, [pinned] = that code with the
+               first four repairs, [audited] = the first five (the code the auditors
+               read), [repaired] = all of them = the code as it is now).
+   The escape table, the trimming of a regex and the splitting of a declaration exist in
+   two variants each: the plain name is the code as it is now, [*_orig] the code before
+   the repair (kept for the [*_refuted] theorems and for the correspondence with an
+   unrepaired tree). *)
 From Coq Require Import List Arith NArith Bool Lia.
 From GV Require Import Common.Outcome.
 Import ListNotations.
@@ -80,9 +85,22 @@ Fixpoint hex_go (fuel : nat) (n : N) (acc : text) : text :=
   end.
 Definition hex_upper (n : N) : text := hex_go 8 n [].
 
-(* RE_LEX_ESC_LITERAL = ^(([xuU][[:xdigit:]])|[[:digit:]]|[afnrtv\\]|[pP]|[dDsSwW]|[Az])
-   matched against the text that starts at the escaped character *)
+(* RE_LEX_ESC_LITERAL = ^(([xuU]([[:xdigit:]]|\{))|[[:digit:]]|[afnrtv\\]|[pP]|[dDsSwW]|[ABz])
+   matched against the text that starts at the escaped character (the code as it is now) *)
 Definition lex_esc_literal (s : text) : bool :=
+  match s with
+  | [] => false
+  | c :: rest =>
+      (mem c [120; 117; 85]%N && match rest with d :: _ => is_xdigit d || (d =? 123)%N | [] => false end)
+      || is_digit c
+      || mem c [97; 102; 110; 114; 116; 118; 92]%N      (* a f n r t v \ *)
+      || mem c [112; 80]%N                              (* p P *)
+      || mem c [100; 68; 115; 83; 119; 87]%N            (* d D s S w W *)
+      || mem c [65; 66; 122]%N                          (* A B z *)
+  end.
+
+(* the table before the repair:  ^(([xuU][[:xdigit:]])|[[:digit:]]|[afnrtv\\]|[pP]|[dDsSwW]|[Az]) *)
+Definition lex_esc_literal_orig (s : text) : bool :=
   match s with
   | [] => false
   | c :: rest =>
@@ -264,16 +282,20 @@ Definition add_duplicate_occurrence (errs : list err) (k : err_kind) (orig dup :
 
 (* ---- the escape rewriting (parser.rs:543 unescape) -------------------------- *)
 
-(* [kw] ("keep white space"): proposed repair, in force when the flag ignore_whitespace is
+(* [kw] ("keep white space"): repair, in force when the flag ignore_whitespace is
    Some(true) — the closure `ws_special` of the repaired code.  The escape before a character the
    regex engine skips in that mode is kept; kept as it is for ASCII ([ws_kept]: the regex crate
    accepts `\c` for ASCII non-alphanumerics only), respelled `\x{..}` otherwise. *)
 Definition ws_special (kw : bool) (c : N) : bool := kw && is_rx_ws c.
 Definition ws_kept (kw : bool) (c : N) : bool := (c <? 128)%N && ws_special kw c.
 
+(* The scanner is written once, over the table [lit] of escapes that are kept. *)
+Section Unescape.
+  Variable lit : text -> bool.
+
 (* first loop: look for an escape sequence which needs unescaping.  Returns the
    cursor (i, s, j, c2) and the state of the char_indices iterator after it. *)
-Fixpoint unescape_first (kw : bool) (it : text) (off : nat) : option (nat * text * nat * N * text * nat) :=
+Fixpoint unescape_first_t (kw : bool) (it : text) (off : nat) : option (nat * text * nat * N * text * nat) :=
   match it with
   | [] => None
   | c :: it1 =>
@@ -281,20 +303,20 @@ Fixpoint unescape_first (kw : bool) (it : text) (off : nat) : option (nat * text
         match it1 with
         | [] => None
         | c2 :: it2 =>
-            if negb (is_meta_character c2 || lex_esc_literal (c2 :: it2) || ws_kept kw c2)
+            if negb (is_meta_character c2 || lit (c2 :: it2) || ws_kept kw c2)
             then Some (off, c2 :: it2, off + 1, c2, it2, off + 1 + len_utf8 c2)
-            else unescape_first kw it2 (off + 1 + len_utf8 c2)
+            else unescape_first_t kw it2 (off + 1 + len_utf8 c2)
         end
-      else unescape_first kw it1 (off + len_utf8 c)
+      else unescape_first_t kw it1 (off + len_utf8 c)
   end.
 
 (* body of 'outer for one cursor: returns the new (unescaped, last_pos) *)
-Definition unescape_step (kw : bool) (re unescaped : text) (last_pos i : nat) (s : text) (j : nat) (c : N) (pe : bool)
+Definition unescape_step_t (kw : bool) (re unescaped : text) (last_pos i : nat) (s : text) (j : nat) (c : N) (pe : bool)
   : outcome (text * nat) :=
   if (c =? c_b)%N then
     do a <- slice re last_pos i;
     Done (unescaped ++ a ++ (if pe then [92; 120; 48; 56]%N else [92; 98]%N), j + 1)
-  else if is_meta_character c || lex_esc_literal s || ws_kept kw c then
+  else if is_meta_character c || lit s || ws_kept kw c then
     do a <- slice re last_pos (j + len_utf8 c);
     Done (unescaped ++ a, j + len_utf8 c)
   else if ws_special kw c then                    (* non-ASCII white space: \x{HEX} *)
@@ -307,9 +329,9 @@ Definition unescape_step (kw : bool) (re unescaped : text) (last_pos i : nat) (s
     Done (unescaped ++ a ++ b, last_pos').
 
 (* the inner loop (look for the next backslash) followed by the next round of 'outer *)
-(* [fixd = true]: proposed repair — a lone final backslash no longer loses the text since the
+(* [fixd = true]: repair — a lone final backslash no longer loses the text since the
    last rewritten escape (the trailing copy is also done when the cursor runs out) *)
-Fixpoint unescape_rest (fixd kw : bool) (re it : text) (off : nat) (unescaped : text) (last_pos : nat) (pe : bool)
+Fixpoint unescape_rest_t (fixd kw : bool) (re it : text) (off : nat) (unescaped : text) (last_pos : nat) (pe : bool)
   : outcome text :=
   match it with
   | [] => do tl <- slice_from re last_pos; Done (unescaped ++ tl)
@@ -320,28 +342,40 @@ Fixpoint unescape_rest (fixd kw : bool) (re it : text) (off : nat) (unescaped : 
             if fixd then do tl <- slice_from re last_pos; Done (unescaped ++ tl)
             else Done unescaped
         | c2 :: it2 =>
-            do r <- unescape_step kw re unescaped last_pos off (c2 :: it2) (off + 1) c2 pe;
-            unescape_rest fixd kw re it2 (off + 1 + len_utf8 c2) (fst r) (snd r) pe
+            do r <- unescape_step_t kw re unescaped last_pos off (c2 :: it2) (off + 1) c2 pe;
+            unescape_rest_t fixd kw re it2 (off + 1 + len_utf8 c2) (fst r) (snd r) pe
         end
-      else unescape_rest fixd kw re it1 (off + len_utf8 c) unescaped last_pos pe
+      else unescape_rest_t fixd kw re it1 (off + len_utf8 c) unescaped last_pos pe
   end.
 
-Definition unescape_gen (fixd kw : bool) (re : text) (pe : bool) : outcome text :=
-  match unescape_first kw re 0 with
+Definition unescape_gen_t (fixd kw : bool) (re : text) (pe : bool) : outcome text :=
+  match unescape_first_t kw re 0 with
   | None => Done re
   | Some (i, s, j, c2, it2, off2) =>
-      do r <- unescape_step kw re [] 0 i s j c2 pe;
-      unescape_rest fixd kw re it2 off2 (fst r) (snd r) pe
+      do r <- unescape_step_t kw re [] 0 i s j c2 pe;
+      unescape_rest_t fixd kw re it2 off2 (fst r) (snd r) pe
   end.
+End Unescape.
 
-(* the code as it was first read *)
+(* the scanner as it is now (the repaired table), with or without the two older repairs *)
+Definition unescape_gen : bool -> bool -> text -> bool -> outcome text := unescape_gen_t lex_esc_literal.
+(* ... and over the table before the repair *)
+Definition unescape_gen_orig : bool -> bool -> text -> bool -> outcome text := unescape_gen_t lex_esc_literal_orig.
+(* [et]: the escape-table repair *)
+Definition unescape_sel (et : bool) : bool -> bool -> text -> bool -> outcome text :=
+  if et then unescape_gen else unescape_gen_orig.
+
+(* the scanner without the lone-backslash and white-space repairs *)
 Definition unescape := unescape_gen false false.
+(* the code as it was first read *)
+Definition unescape_orig := unescape_gen_orig false false.
 
 (* parser.rs:688 trim_end_unescaped *)
 Definition count_trailing_bsl (s : text) : nat := length (take_while (N.eqb c_bsl) (rev s)).
 
-Definition trim_end_unescaped (s : text) : outcome text :=
-  let trimmed := trim_end is_ws s in
+(* [f]: which characters are trimmed *)
+Definition trim_end_unescaped_gen (f : N -> bool) (s : text) : outcome text :=
+  let trimmed := trim_end f s in
   if byte_len trimmed =? byte_len s then Done s else
   if Nat.odd (count_trailing_bsl trimmed) then
     do rest <- slice_from s (byte_len trimmed);
@@ -351,24 +385,33 @@ Definition trim_end_unescaped (s : text) : outcome text :=
     end
   else Done trimmed.
 
-(* ---- the proposed repairs (all false = the code as it was first read) ------- *)
+(* the code as it is now: only what separates a regex from its name (RE_SPACE_SEP: space, tab) is layout *)
+Definition trim_end_unescaped : text -> outcome text := trim_end_unescaped_gen is_space_sep.
+(* before the repair: every Pattern_White_Space character (matches_whitespace) *)
+Definition trim_end_unescaped_orig : text -> outcome text := trim_end_unescaped_gen is_ws.
+Definition trim_pred (tb : bool) : N -> bool := if tb then is_space_sep else is_ws.
+
+(* ---- the repairs (all false = the code as it was first read) ----------------- *)
 Record fixes := {
   fix_header : bool;         (* parse the whole text starting at the header end instead of slicing it off *)
   fix_target_span : bool;    (* name_span computed from where the name is, also behind a <target> *)
   fix_prefix_unescape : bool;(* unescape also the regex of a rule with a <A,B> prefix *)
   fix_dangling : bool;       (* unescape: trailing copy also when the scan ends on a lone backslash *)
-  fix_iw : bool              (* unescape: under ignore_whitespace the escape before white space is kept *)
+  fix_iw : bool;             (* unescape: under ignore_whitespace the escape before white space is kept *)
+  fix_esc_table : bool;      (* RE_LEX_ESC_LITERAL keeps \B and the braced \x{ \u{ \U{ *)
+  fix_decl_blanks : bool;    (* declare_start_states: empty pieces between adjacent blanks are skipped *)
+  fix_trim_blank : bool      (* trim_end_unescaped trims space and tab only *)
 }.
-Definition today : fixes :=
-  {| fix_header := false; fix_target_span := false; fix_prefix_unescape := false; fix_dangling := false;
-     fix_iw := false |}.
-(* the code as it is now: the first four repairs are in, the fifth is proposed *)
-Definition pinned : fixes :=
-  {| fix_header := true; fix_target_span := true; fix_prefix_unescape := true; fix_dangling := true;
-     fix_iw := false |}.
-Definition repaired : fixes :=
-  {| fix_header := true; fix_target_span := true; fix_prefix_unescape := true; fix_dangling := true;
-     fix_iw := true |}.
+Definition mk_fixes (a b c d e f g h : bool) : fixes :=
+  {| fix_header := a; fix_target_span := b; fix_prefix_unescape := c; fix_dangling := d; fix_iw := e;
+     fix_esc_table := f; fix_decl_blanks := g; fix_trim_blank := h |}.
+Definition today : fixes := mk_fixes false false false false false false false false.
+(* the first four repairs *)
+Definition pinned : fixes := mk_fixes true true true true false false false false.
+(* the first five: the code the auditors read *)
+Definition audited : fixes := mk_fixes true true true true true false false false.
+(* the code as it is now *)
+Definition repaired : fixes := mk_fixes true true true true true true true true.
 
 (* ---- the parser -------------------------------------------------------------- *)
 Section Parser.
@@ -444,9 +487,12 @@ Section Parser.
     end.
 
   (* the names of a declaration with their spans; the pointer differences
-     `name.as_ptr() - src.as_ptr()` are index arithmetic *)
-  Definition declared_names (base : nat) (params : text) : list (text * span) :=
-    map (fun p => (snd p, (base + fst p, base + fst p + byte_len (snd p)))) (split is_ws params).
+     `name.as_ptr() - src.as_ptr()` are index arithmetic.  [fb]: the empty pieces that two adjacent
+     blanks give are filtered out (`.filter(|name| !name.is_empty())`) *)
+  Definition nonempty_piece (p : nat * text) : bool := match snd p with [] => false | _ => true end.
+  Definition declared_names (fb : bool) (base : nat) (params : text) : list (text * span) :=
+    map (fun p => (snd p, (base + fst p, base + fst p + byte_len (snd p))))
+        (if fb then filter nonempty_piece (split is_ws params) else split is_ws params).
 
   (* declare_start_states *)
   Definition declare_start_states (exclusive : bool) (i declaration_len line_len : nat)
@@ -457,7 +503,7 @@ Section Parser.
     if match declaration_parameters with [] => true | _ => false end
     then TErr errs (mk_error UnknownDeclaration i) else
     let base := i + declaration_len + byte_len (take_while is_ws raw) in
-    let names := declared_names base declaration_parameters in
+    let names := declared_names (fix_decl_blanks fx) base declaration_parameters in
     let i' := match rev names with (_, (_, e)) :: _ => e | [] => i end in
     match declare_loop exclusive names st errs with
     | TOk st' errs' => dol k <- lift (parse_ws i') holding errs'; TOk (k, st') errs'
@@ -528,7 +574,7 @@ Section Parser.
   (* parse_start_states *)
   Definition parse_start_states (st : pstate) (off : nat) (re_str : text) : res (list nat * text) :=
     if negb (starts_with [c_lt] re_str) then
-      dor u <- lift (unescape_gen (fix_dangling fx) (fix_iw fx && iw) re_str pe); ROk ([], u)
+      dor u <- lift (unescape_sel (fix_esc_table fx) (fix_dangling fx) (fix_iw fx && iw) re_str pe); ROk ([], u)
     else
       match find (N.eqb c_gt) re_str with
       | None => RErr (mk_error InvalidStartState off)
@@ -538,7 +584,7 @@ Section Parser.
           dor ids <- states_by_name st off names;
           dor rest <- lift (slice_from re_str (j + 1));
           if fix_prefix_unescape fx
-          then dor u <- lift (unescape_gen (fix_dangling fx) (fix_iw fx && iw) rest pe); ROk (ids, u)
+          then dor u <- lift (unescape_sel (fix_esc_table fx) (fix_dangling fx) (fix_iw fx && iw) rest pe); ROk (ids, u)
           else ROk (ids, rest)
       end.
 
@@ -609,7 +655,7 @@ Section Parser.
             TOk (i + line_len, st) errs'
         | None =>
             dol re0 <- lift (slice_to line rspace) holding errs;
-            dol re1 <- lift (trim_end_unescaped re0) holding errs;
+            dol re1 <- lift (trim_end_unescaped_gen (trim_pred (fix_trim_blank fx)) re0) holding errs;
             dol ps <- parse_start_states st i re1 holding errs;
             if existsb (Nat.eqb i) re_bad then TErr errs (mk_error RegexError i) else
             TOk (i + line_len,
